@@ -563,6 +563,16 @@ def replace_subcircuit_op(rng, c, uuid_counter, invalid):
         sub = rename_dump(sub, ren)
         imap[i] = (old, old)
         omap = [(a, ren.get(b, b)) for a, b in omap]
+    if rng.random() < 0.12:
+        # a gate of the replacement carries the label of a host gate (mostly one OUTSIDE the replaced region):
+        # the call must refuse with the documented error, never overwrite the host gate
+        cand = [l for l, t, _ in sub['gates'] if t != 'INPUT']
+        now = {g[0] for g in sub['gates']}
+        host = [l for l in labels if l not in now]
+        if cand and host:
+            old, new = rng.choice(cand), rng.choice(host)
+            sub = rename_dump(sub, {old: new})
+            omap = [(a, new if b == old else b) for a, b in omap]
     if invalid:
         r = rng.random()
         if r < 0.3 and imap:
